@@ -210,6 +210,22 @@ impl<'a, T: Transport> Transferrer<'a, T> {
             return Ok(None);
         }
 
+        // A symlink entry is re-created according to the link mode; the entry that is in its place
+        // on a local destination is replaced, never written through.
+        if source.is_symlink {
+            if matches!(self.symlink_mode, SymlinkMode::Skip) {
+                return Ok(None);
+            }
+            if let Ok(dest_meta) = std::fs::symlink_metadata(dest_path) {
+                let replace = dest_meta.file_type().is_symlink()
+                    || (matches!(self.symlink_mode, SymlinkMode::Preserve) && !dest_meta.is_dir());
+                if replace {
+                    std::fs::remove_file(dest_path)?;
+                }
+                return self.handle_symlink(source, dest_path).await;
+            }
+        }
+
         if !source.is_dir {
             // Use delta sync for updates
             let result = self
